@@ -69,12 +69,38 @@ def sibling_for(src, cfg):
     return dict(cfg, **{name: value})
 
 
+def body_sibling(src):
+    if isinstance(src, bytes):
+        return None
+    h = int.from_bytes(hashlib.blake2b(src.encode('utf-8', 'surrogatepass'), digest_size=4, person=b'body').digest(), 'big') % 4
+    if h == 0 and '\r' in src:
+        return src.replace('\r\n', '\n').replace('\r', '\n')
+    if h == 0 and '\n' in src:
+        return src.replace('\n', '\r\n')
+    if h == 1 and '\n' in src and '\r' not in src:
+        return src.replace('\n', '\r')
+    if h == 2 and src != src.strip():
+        return src.strip()
+    if h == 2:
+        return src + '\n'
+    return None
+
+
 def make(cls, src, every=8, ctx=None, **cfg):
     """cls(src, **cfg), on one text in `every` through the module cache after a sibling configuration."""
     if 'loader' in cfg or not routed(src, every):
         return cls(src, **cfg)
     loader = cache_loader()
     sib = sibling_for(src, cfg)
+    body = body_sibling(src)
+    if body is not None:
+        # a sibling TEXT: same configuration, the text differing only in its line-ending convention or in white
+        # space at its ends (a cache key computed from a normalised text would hand its code over)
+        try:
+            cls(body, loader=loader, **cfg).cook_check()
+            _state['decoys'] += 1
+        except Exception:
+            pass
     if sib is not None:
         try:
             t = cls(src, loader=loader, **sib)
